@@ -222,6 +222,29 @@ def check_offset_td(ctx, s):
         V(ctx, "offset-timedelta", f"Offset({s}) timedelta round trip wrong", {"kind": "offset_td", "s": s})
 
 
+def check_offset_td_sub(ctx, us):
+    """Offset.from_timedelta: 'fractional seconds truncated' (toward zero, like every other Offset factory); outside +-18 h it raises."""
+    from pyoda_time import Offset
+    td = dt.timedelta(microseconds=us)
+    lim = 18 * 3600 * 10**6
+    case = {"kind": "offset_td_sub", "us": us}
+    ctx.ev(); ctx.count("offset_timedelta_subsecond"); ctx.key(("offset-td-sub", (us > 0) - (us < 0), us % 10**6 != 0, abs(us) > lim))
+    try:
+        o = Offset.from_timedelta(td)
+    except ValueError as e:
+        ctx.exc(e)
+        if abs(us) <= lim:
+            V(ctx, "offset-from_timedelta-raised", f"Offset.from_timedelta({td!r}) raised {e!r} although it lies within +-18 h", case, repr(e))
+        return
+    except Exception as e:  # noqa: BLE001
+        ctx.exc(e); V(ctx, f"offset-from_timedelta-raised:{type(e).__name__}", f"Offset.from_timedelta({td!r}) raised {e!r}", case, repr(e)); return
+    want = abs(us) // 10**6 * (1 if us >= 0 else -1)
+    if abs(us) > lim:
+        V(ctx, "offset-from_timedelta-out-of-range-returned", f"Offset.from_timedelta({td!r}) returned {o.seconds} s; the documented range is +-18 h", case, o.seconds)
+    elif o.seconds != want:
+        V(ctx, "offset-from_timedelta-truncation", f"Offset.from_timedelta({td!r}) = {o.seconds} s; truncating the fraction gives {want} s", case, o.seconds, want)
+
+
 def check_out_of_range(ctx):
     from pyoda_time import CalendarSystem, Instant, LocalDate, LocalDateTime, LocalTime, Offset
     from vf import gen
@@ -324,6 +347,10 @@ def run(ctx, shard):
         check_timedelta(ctx, us, rng.choice([0, 1, 999, 500])); ctx.count("timedelta")
     for s in [0, 1, -1, 64800, -64800] + [rng.randint(-64800, 64800) for _ in range(300)]:
         check_offset_td(ctx, s)
+    L18 = 18 * 3600 * 10**6
+    for us in [1, -1, 999999, -999999, 1500000, -1500000, -250000 - 18000 * 10**6, L18, -L18, L18 + 1, -L18 - 1, L18 + 999999, -L18 - 999999, L18 + 10**6, -L18 - 10**6] + \
+              [rng.randint(-L18 - 2 * 10**6, L18 + 2 * 10**6) for _ in range(300)] + [rng.choice([-1, 1]) * (rng.randrange(64800) * 10**6 + rng.choice([1, 500000, 999999])) for _ in range(100)]:
+        check_offset_td_sub(ctx, us)
     check_out_of_range(ctx)
     ctx.counters.setdefault("date", 0)
 
@@ -339,4 +366,5 @@ def replay(ctx, case):
     elif k == "aware_subsecond": check_aware_subsecond(ctx, case["us"], case["off_us"])
     elif k == "timedelta": check_timedelta(ctx, case["us"], case["extra_ns"])
     elif k == "offset_td": check_offset_td(ctx, case["s"])
+    elif k == "offset_td_sub": check_offset_td_sub(ctx, case["us"])
     else: check_out_of_range(ctx)
